@@ -40,8 +40,12 @@ CLAIMED = {
         text="Proof (Lean 4) over a code-shaped model of chunk.c, the header cache and the four containers' custom-chunk writers/parsers: write/read table invariant "
              "used <= capacity for any number of calls (and the pre-adbbe09 rule proved to overflow first at call 32), serialise->parse round trip for every chunk list "
              "satisfying an explicit `fits` predicate (4-byte padded sizes, payload + zero padding, order kept), iteration visits exactly the wanted entries once and then "
-             "returns NULL, get_chunk_data touches at most datalen bytes. Partial: the full statement is refuted by proved witnesses in 7 known-finding classes "
-             "(100 KiB header cache, ids shorter than 4 / unprintable / reserved, chunk set after audio, stale single iterator, zero-byte read over virtual I/O), each replayed every run. "
+             "returns NULL for every state of the handle's single iterator, get_chunk_data touches at most datalen bytes, a chunk set after the audio is refused and changes nothing. "
+             "chunks_roundtrip holds for EVERY id the repaired sf_set_chunk accepts, of any length (shorter ids come back padded with spaces); what it refuses is exactly the reserved table of the container, "
+             "unprintable markers in WAV/RF64/AIFF and calls after the audio (set_chunk_refusals, ids_refused_or_roundtrip). Eight defects found by this check are repaired (write-table capacity, late set, "
+             "zero-byte read over virtual I/O, stale iterator; round 4: short ids, unprintable ids, reserved ids, 'TAG?' taken for an ID3v1 trailer in front of the audio): their rules are kept as *_old_rule theorems and "
+             "their witnesses run first on every run. Partial: one known-finding class remains (100 KiB header cache: one chunk > 51200 bytes or about 100 KiB in total is dropped silently), and the pass-through names "
+             "(LIST, INFO, PAD / APPL / free: accepted, the container's reader looks into them) are judged by the predicate only. "
              "Correspondence sampled: every count 0..200 on WAV, spreads elsewhere, boundary payload sizes, iterator patterns; 16-bit PCM files only.",
         technique="Lean 4 theorems over a hand-written model + sampled correspondence (sfmodel chunks vs sfh under ASan) + property predicate on the implementation transcript",
         design_ref="DESIGN.md §7 C13"),
@@ -234,9 +238,11 @@ CLAIMED["C12"] = dict(
          "inst_roundtrip, aiff_text_roundtrip, mark_roundtrip, caf_info_roundtrip, chan_roundtrip, late_or_unsupported_is_harmless at full strength (a refused call leaves the whole handle state), "
          "late_bext_keeps_size / late_cart_keeps_size, strings_order_independent and meta_order_independent (what the GET calls return does not depend on the order of the SET calls). Nine defects were "
          "repaired (RIFX endian switch, late bext/cart growth, slot loop of psf_store_string, bext 10 KiB reader bound, second SFC_SET_CUE, AIFF APPL termination, cart size test, over-long AIFF text chunks, "
-         "128-byte software buffer); their old rules are kept as *_old_rule theorems and their witnesses are regression tests run first on every run. Partial: ten known-finding classes remain, each with a proved "
-         "witness or an explicit limit hypothesis and a replayed witness (WAV cue names, smpl ranges and detune sign, AIFF INST, 2046-byte INFO text, AIFF texts >= 8190 bytes, CAF 16 KiB buffer, AIFF late "
-         "replacement, AIFF sanitising, header cache). Correspondence sampled (seeded scripts: every string length class, UTF-8, CR/LF variants, coding histories and tag texts up to the 16 KiB fields, 0..100 cues, "
+         "128-byte software buffer; round 4, SfModel/MetaFix.lean + SfProps/C12Fix.lean: WAV cue point names written as LIST/adtl/labl - cue_names_roundtrip -, AIFF MARK chunk when an instrument is set as well - "
+         "aiff_cues_with_inst -, AIFF string replaced after the audio - late_replace_audio_in_place, the SSND offset field keeps the audio where it was written); their old rules are kept as *_old_rule theorems and their "
+         "witnesses are regression tests run first on every run. Partial: eight known-finding classes remain, each with a proved "
+         "witness or an explicit limit hypothesis and a replayed witness (smpl ranges and detune sign, AIFF INST chunk, 2046-byte INFO text, AIFF texts >= 8190 bytes, CAF 16 KiB buffer, "
+         "AIFF sanitising, header cache). Correspondence sampled (seeded scripts: every string length class, UTF-8, CR/LF variants, coding histories and tag texts up to the 16 KiB fields, 0..100 cues, "
          "0..16 loops, channel maps) for WAV/WAVEX/RF64/AIFF/CAF against `sfmodel meta`; RIFX, W64, AU by the property predicate on the library's own transcripts only.",
     technique="Lean 4 theorems over hand-written models + sampled correspondence (sfmodel meta vs sfh under ASan) + property predicate (get after re-open = normalise(set), audio unchanged) on the implementation transcript",
     design_ref="DESIGN.md §7 C12")
